@@ -127,15 +127,15 @@ def step (d : D) (op impl : String) : D × DrvOut :=
       let E := mkEnv d cwd now rx cal false 0
       let run (E : Env) : String :=
         let d1 := deleted E files confs
-        let left := remaining E files confs
+        let left := files.filter fun f => !d1.contains f
         s!"{fmtList cwd d1} {fmtList cwd (deleted E left confs)}"
       let m1 := run E
       -- would a missing oracle entry have mattered?
       let m2 := run (mkEnv d cwd now rx cal true 100000000000000000000)
       let model := if m1 == m2 then m1 else "-"
-      let codeDel := deleted (mkEnv { anch := false, coh := false } cwd now rx cal false 0) files confs
-      let fixDel := deleted (mkEnv { anch := true, coh := true } cwd now rx cal false 0) files confs
-      let anchDel := deleted (mkEnv { anch := true, coh := false } cwd now rx cal false 0) files confs
+      let codeDel (_ : Unit) := deleted (mkEnv { anch := false, coh := false } cwd now rx cal false 0) files confs
+      let fixDel (_ : Unit) := deleted (mkEnv { anch := true, coh := true } cwd now rx cal false 0) files confs
+      let anchDel (_ : Unit) := deleted (mkEnv { anch := true, coh := false } cwd now rx cal false 0) files confs
       let spec :=
         match words impl with
         | [g1, g2] =>
@@ -144,19 +144,20 @@ def step (d : D) (op impl : String) : D × DrvOut :=
             let g1 := g1.map fun r => cwd ++ 47 :: r
             if !g2.isEmpty then "FAIL a second pass deleted further files"
             else
-              let unjust := g1.filter fun f => !justified E rx cal confs f
-              let missed := files.filter fun f => justified E rx cal confs f && !g1.contains f
+              let just := files.filter fun f => justified E rx cal confs f
+              let unjust := g1.filter fun f => !just.contains f
+              let missed := just.filter fun f => !g1.contains f
               match unjust.head?, missed.head? with
               | some f, _ =>
-                if codeDel.contains f && !anchDel.contains f then
+                if (codeDel ()).contains f && !(anchDel ()).contains f then
                   s!"KNOWN unanchoredExtra deleted a file that is not an expired segment: {Hex.encode f}"
-                else if codeDel.contains f && !fixDel.contains f then
+                else if (codeDel ()).contains f && !(fixDel ()).contains f then
                   s!"KNOWN repeatedPlaceholder deleted a file that is not an expired segment: {Hex.encode f}"
                 else s!"FAIL deleted a file that is not an expired segment of a path with retention: {Hex.encode f}"
               | none, some f =>
                 if (justifiers E rx cal confs f).all fun c => MtxVerif.C26.pathCount (tokenize c.fmt) != 1 then
                   s!"KNOWN repeatedPlaceholder an expired segment was not deleted (record path with several %path): {Hex.encode f}"
-                else if fixDel.contains f && !codeDel.contains f then
+                else if (fixDel ()).contains f && !(codeDel ()).contains f then
                   s!"KNOWN unanchoredExtra an expired segment was not deleted: {Hex.encode f}"
                 else s!"FAIL an expired segment was not deleted: {Hex.encode f}"
               | none, none => "ok"
